@@ -626,7 +626,15 @@ def run_histories(b):
     out = {}
 
     path = node_path
-    for n in b.strategy.members:
+
+    def walk(n):
+        # the driver's own walk through .children (not the node's members list)
+        yield n
+        for c in getattr(n, "children", {}).values():
+            for x in walk(c):
+                yield x
+
+    for n in walk(b.strategy):
         d = {}
         if isinstance(n, bt.core.StrategyBase):
             names = ["prices", "values", "notional_values", "cash", "fees", "flows"]
